@@ -143,6 +143,22 @@ pub fn run_case_isolated(
     timeout: Duration,
     hang_is_violation: bool,
 ) -> IsoOutcome {
+    run_case_isolated_ext(w, prop, sub, choices, want_desc, timeout, hang_is_violation, false)
+}
+
+/// `shrinking`: a timeout is reported as a hang at once (no 20x retry); used only while
+/// minimising an already confirmed failure, the minimal case is re-verified with the full budget.
+#[allow(clippy::too_many_arguments)]
+pub fn run_case_isolated_ext(
+    w: &mut WorkerHandle,
+    prop: &str,
+    sub: &str,
+    choices: &[u64],
+    want_desc: bool,
+    timeout: Duration,
+    hang_is_violation: bool,
+    shrinking: bool,
+) -> IsoOutcome {
     let mut budget = timeout;
     for attempt in 0..2 {
         if !w.send(choices, want_desc) {
@@ -161,6 +177,9 @@ pub fn run_case_isolated(
             Err(RecvTimeoutError::Timeout) => {
                 w.kill();
                 *w = WorkerHandle::spawn(prop, sub);
+                if shrinking {
+                    return IsoOutcome::Done(Rec::default(), 0, Err(Fail::new("hang", "timed out while shrinking")));
+                }
                 if attempt == 0 {
                     // retry alone with a 20x budget before calling it a hang
                     budget = timeout * 20;
